@@ -14,6 +14,11 @@ SortedInputs == { s \in UNION {[1..n -> BarSet] : n \in 1..MaxBars} :
 Init == input \in SortedInputs /\ st = InitSt(input)
 Next == ~IsDone(st) /\ st' = Step(st, WithShortcut)[1] /\ UNCHANGED input
 Spec == Init /\ [][Next]_vars
+\* liveness: the sweep finishes on every input (the while-loops with re-insertion make progress)
+FairSpec == Spec /\ WF_vars(Next)
+Termination == <>IsDone(st)
+\* finished depths are never rewritten: the output grows by whole depths and by appended critical points only
+DepthsAppendOnly == [][\A k \in 1..(Len(st.L) - 1) : k <= Len(st'.L) /\ st'.L[k] = st.L[k]]_vars
 
 KMax == MaxBars + 1
 Correct        == IsDone(st) => CorrectFor(input, Result(st), 0 - 1, MaxT + 1, KMax)
